@@ -1173,7 +1173,9 @@ class DomainMapping(CanBehaveLikeAVariable[T], ABC):
                     self._is_false_ = False
                 else:
                     self._is_false_ = True
-                if self._yield_when_false_ or not self._is_false_:
+                # the argument, not self._yield_when_false_: the same expression object can be evaluated again (e.g. once
+                # as an operand and once as a condition) while this generator is suspended, which overwrites the attribute.
+                if yield_when_false or not self._is_false_:
                     values[self._id_] = v
                     yield values
 
